@@ -1,8 +1,8 @@
 (* Props/C15.v - Pumping power and modelled pressures stay physical.
    Only statements; every proof is [exact <lemma>] from Proofs/. *)
 From Coq Require Import QArith Qminmax List ZArith Bool.
-From Verif Require Import Base.Flat Model.Pressure Model.Pumping Model.Friction
-     Proofs.PressureProofs Proofs.PumpingProofs Proofs.FrictionProofs.
+From Verif Require Import Base.Flat Model.Pressure Model.Pumping Model.Friction Model.WellDP
+     Proofs.PressureProofs Proofs.PumpingProofs Proofs.FrictionProofs Proofs.WellDPProofs.
 Import ListNotations.
 Open Scope Q_scope.
 
@@ -198,6 +198,54 @@ Proof. exact growth_ok_sound. Qed.
 Print Assumptions C15_friction_checker_sound.
 
 (* ------------------------------------------------------------------------------------------------------
+   How the friction term enters the pump pressures (index model: production and injection pump; impedance model:
+   overall drop): always with a plus sign - pump pressure = (everything else) + frictional loss. *)
+Theorem C15_friction_enters_with_plus_sign :
+  (forall pwh phyd q pikpa rho depth fric,
+     dp_prod_index pwh phyd q pikpa rho depth fric == dp_prod_index pwh phyd q pikpa rho depth 0 + fric) /\
+  (forall phyd q wl nprod ninj iikpa rho depth fric pout,
+     dp_inj_index phyd q wl nprod ninj iikpa rho depth fric pout ==
+     dp_inj_index phyd q wl nprod ninj iikpa rho depth 0 pout + fric) /\
+  (forall imp nprod q rhores rhop rhoi depth dpp dpi,
+     dp_overall (dp_reserv imp nprod q rhores) dpp (dp_buoyancy rhop rhoi depth) dpi ==
+     dp_overall (dp_reserv imp nprod q rhores) 0 (dp_buoyancy rhop rhoi depth) 0 + dpp + dpi).
+Proof. exact (conj dp_prod_index_split (conj dp_inj_index_split imp_overall_split)). Qed.
+Print Assumptions C15_friction_enters_with_plus_sign.
+
+(* hence, with everything but the diameter equal and the growth premise on the friction factors, neither the
+   production pump pressure nor the (clamped) production pumping power grows with the production-well diameter ... *)
+Theorem C15_prod_pump_vs_diameter_partial :
+  forall pwh phyd q pikpa rho pi depth nprod eff f1 f2 d1 d2,
+  0 < rho -> 0 < pi -> 0 <= depth -> 0 < d1 -> 0 < d2 -> 0 <= nprod -> 0 <= q -> 0 < eff ->
+  f2 * pow5 d1 <= f1 * pow5 d2 ->
+  let dp d f := dp_prod_index pwh phyd q pikpa rho depth (dp_of f q rho pi depth d) in
+  dp d2 f2 <= dp d1 f1 /\
+  prod_power true nprod q eff (dp d2 f2) rho <= prod_power true nprod q eff (dp d1 f1) rho.
+Proof. exact prod_index_vs_diameter. Qed.
+Print Assumptions C15_prod_pump_vs_diameter_partial.
+
+(* ... nor the injection pump pressure / power with the injection-well diameter ([qw]: flow in one injection well) *)
+Theorem C15_inj_pump_vs_diameter_partial :
+  forall phyd q qw wl nprod ninj iikpa rho pi depth pout eff f1 f2 d1 d2,
+  0 < rho -> 0 < pi -> 0 <= depth -> 0 < d1 -> 0 < d2 -> 0 <= nprod -> 0 <= q -> 0 <= 1 + wl -> 0 < eff ->
+  f2 * pow5 d1 <= f1 * pow5 d2 ->
+  let dp d f := dp_inj_index phyd q wl nprod ninj iikpa rho depth (dp_of f qw rho pi depth d) pout in
+  dp d2 f2 <= dp d1 f1 /\
+  inj_power nprod q wl eff (dp d2 f2) rho <= inj_power nprod q wl eff (dp d1 f1) rho.
+Proof. exact inj_index_vs_diameter. Qed.
+Print Assumptions C15_inj_pump_vs_diameter_partial.
+
+(* impedance model: a smaller well friction (either well) never gives a larger overall drop or pumping power *)
+Theorem C15_impedance_vs_friction :
+  forall imp nprod ninj q wl eff rhores rhop rhoi depth dpp1 dpp2 dpi1 dpi2,
+  0 <= ninj -> 0 <= q -> 0 <= 1 + wl -> 0 < rhoi -> 0 < eff -> dpp2 <= dpp1 -> dpi2 <= dpi1 ->
+  let dpo dpp dpi := dp_overall (dp_reserv imp nprod q rhores) dpp (dp_buoyancy rhop rhoi depth) dpi in
+  dpo dpp2 dpi2 <= dpo dpp1 dpi1 /\
+  imp_power ninj q wl eff (dpo dpp2 dpi2) rhoi <= imp_power ninj q wl eff (dpo dpp1 dpi1) rhoi.
+Proof. exact imp_vs_friction. Qed.
+Print Assumptions C15_impedance_vs_friction.
+
+(* ------------------------------------------------------------------------------------------------------
    non-vacuity: the hypotheses are satisfiable and the models compute what the comments say *)
 Example C15_example_prod :
   (exists l, prod_pressure 2 3 1000 150 40 = Vals l /\ length l = 6%nat /\ nth 0 l 0 == 1500 /\
@@ -240,3 +288,9 @@ Example C15_example_friction :
   /\ growth_ok (2 # 10) (15 # 1000) (25 # 100) (16 # 1000) = true
   /\ well_f (fun _ _ => 2 # 100) 1 (1 # 1000) (355 # 113) (7 # 10) == 64 / reynolds 1 (1 # 1000) (355 # 113) (7 # 10).
 Proof. repeat split; vm_compute; reflexivity. Qed.
+
+Example C15_example_pump_pressure :
+  dp_prod_index 450 29000 55 (5 # 100) 900 3000 200 == dp_prod_index 450 29000 55 (5 # 100) 900 3000 0 + 200
+  /\ 0 < dp_prod_index 450 29000 55 (5 # 100) 900 3000 200
+  /\ (16 # 1000) * pow5 (2 # 10) <= (15 # 1000) * pow5 (25 # 100).
+Proof. split; [vm_compute; reflexivity|]. split; [vm_compute; reflexivity|]. vm_compute. discriminate. Qed.
